@@ -173,6 +173,11 @@ def run(ctx, chk):
                     o_ = a_ if c_ is b_ else b_
                     if c_ is not None and c_.v in (1, (1 << 64) - 1) and isinstance(o_, Inst) and o_.op == "load" and apath(o_.operands[0]) == apath(p):
                         unit_step = True
+                if isinstance(v, Inst) and v.op == "sub":
+                    a_, b_ = v.operands
+                    if isinstance(b_, Const) and b_.v in (1, (1 << 64) - 1) and isinstance(a_, Inst) and a_.op == "load" and \
+                            apath(a_.operands[0]) == apath(p):
+                        unit_step = True
                 if unit_step:
                     ok = True      # x->refcount = x->refcount +- 1 (incref / decref / move, possibly inlined)
                 elif f.name in ctors:
